@@ -17,14 +17,16 @@ structure DeleteOpts where
   breakLock : Bool := false
   deriving Repr, Inhabited, DecidableEq
 
-/-- Hunks of one band as `iter_available_hunks()` + repeated `next()` (no `after`) yields them.
-With `strict = false` (the code before the repair of D6) a hunk whose read fails is silently
-skipped; with `strict = true` the failure is an error. -/
+/-- Entries of the hunks of one band, for `referenced_blocks`.
+`strict = true` is the code after the repair of D6: every listed hunk must be read, and any
+failure (or a hunk that is listed but not found) is an error.  `strict = false` is the code
+before: `IndexHunkIter::next`, which silently skips a hunk whose read fails and stops at a
+hunk that is not found. -/
 def bandHunkEntries (strict : Bool) (b : Nat) : List Nat → Prog (List IndexEntry)
   | [] => pure []
   | n :: rest => do
     match ← (readHunk b n).attempt with
-    | .ok none => pure []
+    | .ok none => if strict then .fail .invalidMetadata else pure []
     | .error e => if strict then .fail e else bandHunkEntries strict b rest
     | .ok (some es) =>
       let more ← bandHunkEntries strict b rest
@@ -39,7 +41,7 @@ def referencedBlocks (strict : Bool) : List Nat → Prog (List Str)
   | [] => pure []
   | b :: bs => do
     bandOpen b
-    let hunks ← iterAvailableHunks b
+    let hunks ← if strict then hunksAvailable b else iterAvailableHunks b
     let es ← bandHunkEntries strict b hunks
     let here := es.flatMap fun e => e.addrs.map (·.hash)
     let more ← referencedBlocks strict bs
@@ -87,10 +89,13 @@ def deleteBody (strict : Bool) (D : List Nat) (o : DeleteOpts) (held : Option Na
 `Drop` removes the lock file. -/
 def deleteBands (strict : Bool) (D : List Nat) (o : DeleteOpts) : Prog DeleteStats := do
   let held ← if o.breakLock then gcBreakLock else gcLockNew
-  match ← (deleteBody strict D o held).attempt with
+  match ← (deleteBody strict D o held).attemptAll with
   | .ok st => pure st
-  | .error e =>
+  | .err e =>
     gcLockDrop
     .fail e
+  | .panic site =>
+    gcLockDrop                      -- unwinding drops the lock object too
+    .panic site
 
 end Conserve
